@@ -71,10 +71,13 @@ set_option maxRecDepth 100000 in
 theorem checks_tst : cfgTst.checks = true := by decide +kernel
 set_option maxRecDepth 100000 in
 theorem checks_w1 : cfgW1.checks = true := by decide +kernel
+set_option maxRecDepth 100000 in
+theorem checks_wb : cfgWb.checks = true := by decide +kernel
 
 theorem checked_dec : cfgDec.Checked := Config.checked_of_checks checks_dec
 theorem checked_s8b : cfgS8b.Checked := Config.checked_of_checks checks_s8b
 theorem checked_tst : cfgTst.Checked := Config.checked_of_checks checks_tst
 theorem checked_w1 : cfgW1.Checked := Config.checked_of_checks checks_w1
+theorem checked_wb : cfgWb.Checked := Config.checked_of_checks checks_wb
 
 end SSVerif.LogAdd
